@@ -6,6 +6,7 @@ package checks
 // Shared by C05 (closure semantics) and C06 (fault injection).
 
 import (
+	"encoding/json"
 	"context"
 	"fmt"
 	"path"
@@ -178,6 +179,9 @@ func genSched(t *rapid.T, n int) []int {
 		v := rapid.IntRange(0, 999).Draw(t, "sched")
 		if bias == 0 && v%3 != 0 {
 			v = 1000 // deepest pending first
+		}
+		if bias == 1 && v%3 != 0 {
+			v = 2000 // the pending read with the highest name first (the later imports of a wide fan-out)
 		}
 		s = append(s, v)
 	}
@@ -486,9 +490,14 @@ func (g *gateReader) ReadHashBranch(ctx context.Context, p string) ([]byte, retr
 }
 
 type gateResult struct {
-	Module   *sysl.Module
-	Err      error
-	Panic    string
+	Module    *sysl.Module `json:"-"`
+	Err       error        `json:"-"`
+	ErrText   string       // Err.Error() ("" when Err == nil): what crosses the worker boundary
+	HasErr    bool
+	ModuleNil bool
+	Order     []string // contributions read out of the model (see contributions)
+	Apps      []string
+	Panic     string
 	Hung     bool
 	Reads    map[string]int
 	Total    int
@@ -525,12 +534,17 @@ func runGated(g *impCase, gr *gateReader, sched []int, followImports func(i int)
 	si := 0
 	finish := func(r res) *gateResult {
 		out.Module, out.Err, out.Panic = r.m, r.err, r.pan
+		out.ModuleNil = r.m == nil
+		if r.err != nil {
+			out.HasErr, out.ErrText = true, r.err.Error()
+		}
+		out.Order, out.Apps = contributions(r.m)
 		gr.mu.Lock()
 		out.Reads, out.Total, out.Unknown = gr.reads, gr.total, gr.unknown
 		gr.mu.Unlock()
 		return out
 	}
-	deadline := time.Now().Add(30 * time.Second)
+	deadline := time.Now().Add(18 * time.Second)
 	maxReads := 50*len(g.Paths) + 50
 	for {
 		// wait until the number of pending reads equals the model's prediction (fast path),
@@ -596,7 +610,9 @@ func runGated(g *impCase, gr *gateReader, sched []int, followImports func(i int)
 		if si < len(sched) {
 			v := sched[si]
 			si++
-			if v >= 1000 {
+			if v >= 2000 {
+				k = len(gr.pending) - 1
+			} else if v >= 1000 {
 				for j, r := range gr.pending {
 					if r.depth > gr.pending[k].depth {
 						k = j
@@ -693,4 +709,50 @@ func fnames(ix []int) []string {
 		out = append(out, fmt.Sprintf("F%d", i))
 	}
 	return out
+}
+
+
+// ---------- running a gated compile in the sandbox worker ----------
+//
+// A panic in one of the retrieval goroutines (errgroup) cannot be recovered and ends the process: the
+// gated compile therefore runs in the worker, so that such a death is attributed to the case.
+
+type gatedArg struct {
+	G     impCase `json:"g"`
+	Sched []int   `json:"sched"`
+	Mode  string  `json:"mode"` // "c05": every file is as generated; "c06": faults injected
+}
+
+var _ = registerOp("c05.gated", func(raw json.RawMessage) (interface{}, error) {
+	var a gatedArg
+	if err := json.Unmarshal(raw, &a); err != nil {
+		return nil, err
+	}
+	g := &a.G
+	gr := newGateReader(g)
+	var follow func(i int) bool
+	if a.Mode == "c06" {
+		follow = func(i int) bool { return c06Follows(g.Faults[i]) }
+		for i, k := range g.Faults {
+			if k == "readerr" {
+				gr.readErr[i] = true
+			}
+		}
+	}
+	return runGated(g, gr, a.Sched, follow), nil
+})
+
+// gatedRun runs one (graph, schedule) execution in the worker. A non-nil Death means the process ended
+// (or the worker did not answer): the code under test crashed in a way no recover() can catch.
+func gatedRun(g *impCase, sched []int, mode string) (*gateResult, *Death, bool) {
+	var r gateResult
+	death, err, inconclusive := sandboxCall("c05.gated", gatedArg{G: *g, Sched: sched, Mode: mode}, &r)
+	if err != nil {
+		panic("c05.gated: " + err.Error())
+	}
+	if r.Hung {
+		// goroutines of the stalled Parse are still blocked in the worker: start a fresh one
+		shutdownSandbox()
+	}
+	return &r, death, inconclusive
 }
